@@ -659,10 +659,23 @@ class DesignGen:
     # temporaries
     if rng.random() < 0.3:
       w = rng.choice([1, 4, 8])
-      e, _ = eg.expr(w, depth - 1)
+      e, kind = eg.expr(w, depth - 1)
       self.uid += 1
       tn = f't{self.uid}'
-      out.append(f'{tn} = {e}')
+      if w >= 4 and rng.random() < 0.5:
+        # part-writes of the temporary (blocking also in update_ff blocks: repaired defect F29); the temporary must be a
+        # fresh value, `t = s.x` would alias the signal object in the PyMTL simulation
+        if kind in ('sig', 'elem'): e = f'({e} | 0)'
+        out.append(f'{tn} = {e}')
+        lo = rng.randint(0, w - 2); hi = rng.randint(lo + 1, w)
+        out.append(f'{tn}[{lo}:{hi}] = {eg.expr(hi - lo, 1)[0]}')
+        if self.be == 'verilog':          # yosys: an index / field of a temporary loses its name (reported as F30)
+          k = rng.randrange(w)
+          if rng.random() < 0.5: out += [f'if {eg.cond()}:', f'  {tn}[{k}] = {eg.expr(1, 1)[0]}']
+          else: out.append(f'{tn}[{k}] = {eg.expr(1, 1)[0]}')
+        self.features.add('tmpvar-part-write' + ('-ff' if ff else ''))
+      else:
+        out.append(f'{tn} = {e}')
       scope.refs.append(Ref(tn, w, 'sig'))
       self.features.add('tmpvar')
     if s.T[0] == 's':
@@ -752,7 +765,15 @@ class DesignGen:
     for tgt in targets:
       same = [p for p in self.struct_paths(c, scope, st)]
       by_field = (self.be == 'verilog' and rng.random() < 0.45) or not st.flat
-      if st.flat and self.be == 'verilog' and rng.random() < 0.12:
+      if st.flat and self.be == 'verilog' and rng.random() < 0.15:
+        # a struct-typed temporary built from a fresh struct value, one field overwritten (yosys: F10 variant struct-tmpvar)
+        self.uid += 1
+        tn = f'ts{self.uid}'
+        f0, t0 = rng.choice(st.fields)
+        out.append(f"{tn} = {st.name}( {', '.join(value_of(t) for _, t in st.fields)} )")
+        out.append(f'{tn}.{f0} = {eg.expr(t0[1], 1)[0]}')
+        out.append(f'{tgt} {op} {tn}'); self.features.add('struct-tmpvar-field-write')
+      elif st.flat and self.be == 'verilog' and rng.random() < 0.12:
         # a bitstruct constant of the component (the yosys backend rejects reading it: KeyError in the translator)
         self.uid += 1
         cn = f'CS{self.uid}'
